@@ -276,7 +276,9 @@ fn main() {
                             "telemetryLoggerStatus": {"status": "RUNNING", "message": "t"},
                             "proxyConnectionsCount": n
                         },
-                        "proxyConnectionSummary": [], "failedAuthenticateSummary": []
+                        "proxyConnectionSummary": [{"userName": "VERIFUSER", "ip": "168.63.129.16", "port": 80, "processCmdLine": "c",
+                            "responseStatus": "200 OK", "count": n + 1, "userGroups": [], "processFullPath": "/p"}],
+                        "failedAuthenticateSummary": []
                     })
                     .to_string()
                 };
@@ -294,6 +296,11 @@ fn main() {
                 let mut ss = service_main::service_state::ServiceState::default();
                 let mut outs: Vec<String> = Vec::new();
                 let mut oks: Vec<u8> = Vec::new();
+                // state notifications emitted during a poll, read back from the service log (every emitted event is logged):
+                // [read-file success, read-file error, file-version error, file-version success]
+                let mut emits: Vec<[bool; 4]> = Vec::new();
+                let log_file = std::path::PathBuf::from("/var/log/verif-ext-logs").join(constants::SERVICE_LOG_FILE);
+                let mut log_seen = std::fs::read(&log_file).map(|b| b.len()).unwrap_or(0);
                 let mut have_good = false;
                 let mut last_good: Option<String> = None; // what the healthy agent wrote last (restored by 'u' after a failure)
                 for (n, ch) in cmd.polls.chars().enumerate() {
@@ -320,9 +327,18 @@ fn main() {
                     service_main::verif_report_step(&version, &mut status, &mut st, &mut restored, &mut ss);
                     oks.push(if have_good { 1 } else { 0 });
                     outs.push(status.status.clone());
+                    let all = std::fs::read(&log_file).unwrap_or_default();
+                    let fresh = String::from_utf8_lossy(&all[log_seen.min(all.len())..]).to_string();
+                    log_seen = all.len();
+                    emits.push([
+                        fresh.contains("Successfully read proxy agent aggregate status file"),
+                        fresh.contains("Error in reading proxy agent aggregate status file"),
+                        fresh.contains("does not match proxy agent file version"),
+                        fresh.contains("VERIFUSER"),
+                    ]);
                 }
                 let _ = std::fs::remove_file(&file);
-                writeln!(out, "{}", serde_json::json!({ "out": outs, "ok": oks })).unwrap();
+                writeln!(out, "{}", serde_json::json!({ "out": outs, "ok": oks, "emit": emits })).unwrap();
             }
             "handler" => handler_drv::run(&line, &mut out),
             other => panic!("unknown kind {}", other),
